@@ -268,11 +268,110 @@ def switch_edges_on_variant(prog, body, adt_suffix, variants):
     return edges
 
 
+def _bool_temp_switches(body):
+    """Switches on a boolean temporary that is assigned on several arms (the lowering of `a || b`, `a && b`,
+    `let c = ..; if c`, the return slot of a spliced bool helper): (switch block, local, negated, true edges,
+    false edges)."""
+    if hasattr(body, "_bts"):
+        return body._bts
+    du = defuse(body)
+    out = []
+    for bi in sorted(body.cfg.reach):
+        t = body.blocks[bi]["term"]
+        if t["k"] != "switch":
+            continue
+        p = op_place(t["discr"])
+        if p is None or p.get("p") or body.local_ty(p["l"]).k != "bool":
+            continue
+        neg = False
+        l = p["l"]
+        for _ in range(16):
+            d = du.single_def(l)
+            if not d or d[0] != "stmt":
+                break
+            rv = d[3]["rv"]
+            if rv["k"] == "unop" and rv["op"] == "Not" and op_place(rv["a"]) is not None and not op_place(rv["a"]).get("p"):
+                neg = not neg
+                l = op_place(rv["a"])["l"]
+            elif rv["k"] == "use" and op_place(rv["op"]) is not None and not op_place(rv["op"]).get("p") and body.local_ty(op_place(rv["op"])["l"]).k == "bool":
+                l = op_place(rv["op"])["l"]
+            else:
+                break
+        if len(du.defs.get(l, [])) < 2:
+            continue
+        te, fe = set(), set()
+        nv = len(t["values"])
+        for k, v in enumerate(t["values"]):
+            ((te if (v != 0) != neg else fe)).add(("e", bi, k))
+        e = ("e", bi, nv)
+        if t["values"] == [0]:
+            (fe if neg else te).add(e)
+        elif t["values"] == [1]:
+            (te if neg else fe).add(e)
+        out.append((bi, l, te, fe))
+    body._bts = out
+    return out
+
+
+def extend_edges(body, edges):
+    """Edges implied by `edges` through boolean temporaries: if every definition of a bool temporary T that can
+    make it true (anything but `const false`) lies behind `edges`, then the true edges of a switch on T lie behind
+    `edges` as well (T is true only if one of those definitions ran); likewise for false."""
+    if not edges:
+        return set()
+    bts = _bool_temp_switches(body)
+    if not bts:
+        return set(edges)
+    key = frozenset(edges)
+    cache = body.__dict__.setdefault("_ext_cache", {})
+    if key in cache:
+        return cache[key]
+    du = defuse(body)
+    E = set(edges)
+    for _round in range(4):
+        grown = False
+        unreach = None
+        for (bi, l, te, fe) in bts:
+            if te <= E and fe <= E:
+                continue
+            if unreach is None:
+                unreach = body.cfg.reachable_from([0], avoid_edges=E)
+            can_true, can_false = [], []
+            for d in du.defs.get(l, []):
+                c = None
+                if d[0] == "stmt" and d[3]["rv"]["k"] == "use":
+                    c = op_const(d[3]["rv"]["op"])
+                if c != 0:
+                    can_true.append(d[1])
+                if c != 1:
+                    can_false.append(d[1])
+            if can_true and not te <= E and all(b not in unreach for b in can_true):
+                E |= te
+                grown = True
+                unreach = None
+            if unreach is None:
+                unreach = body.cfg.reachable_from([0], avoid_edges=E)
+            if can_false and not fe <= E and all(b not in unreach for b in can_false):
+                E |= fe
+                grown = True
+                unreach = None
+        if not grown:
+            break
+    cache[key] = E
+    return E
+
+
 def dominated_by_edges(body, edges, block):
-    """Every path from entry to block crosses one of edges."""
+    """Every path from entry to block crosses one of edges (or an edge implied by them through a boolean
+    temporary, see extend_edges)."""
     if not edges:
         return False
-    return block not in body.cfg.reachable_from([0], avoid_edges=edges)
+    if block not in body.cfg.reachable_from([0], avoid_edges=edges):
+        return True
+    ext = extend_edges(body, edges)
+    if len(ext) == len(set(edges)):
+        return False
+    return block not in body.cfg.reachable_from([0], avoid_edges=ext)
 
 
 def bool_place_edges(body, place_pred):
@@ -317,6 +416,45 @@ def bool_place_edges(body, place_pred):
             (fe if neg else te).add(e)
         elif t["values"] == [1]:
             (te if neg else fe).add(e)
+    # boolean temporaries (`let both = own && peer; if both`): the temporary is true only through a definition
+    # that copies the flag, so its true edges are true edges of the flag (likewise false for `||`)
+    def traces_to_flag(op):
+        p = op_place(op)
+        if p is None:
+            return None
+        neg = False
+        for _ in range(16):
+            if p.get("p"):
+                break
+            d = du.single_def(p["l"])
+            if not d or d[0] != "stmt":
+                break
+            rv = d[3]["rv"]
+            if rv["k"] == "unop" and rv["op"] == "Not" and op_place(rv["a"]) is not None:
+                neg = not neg
+                p = op_place(rv["a"])
+            elif rv["k"] == "use" and op_place(rv["op"]) is not None:
+                p = op_place(rv["op"])
+            else:
+                break
+        return (not neg) if place_pred(root_place(body, p)) else None
+    for (bi, l, te2, fe2) in _bool_temp_switches(body):
+        can_true, can_false = [], []
+        for d in du.defs.get(l, []):
+            c = op_const(d[3]["rv"]["op"]) if d[0] == "stmt" and d[3]["rv"]["k"] == "use" else None
+            pol = traces_to_flag(d[3]["rv"]["op"]) if d[0] == "stmt" and d[3]["rv"]["k"] == "use" and c is None else None
+            if c != 0:
+                can_true.append(pol)
+            if c != 1:
+                can_false.append(pol)
+        if can_true and all(x is True for x in can_true):
+            te |= te2
+        if can_false and all(x is True for x in can_false):
+            fe |= fe2
+        if can_true and all(x is False for x in can_true):
+            fe |= te2
+        if can_false and all(x is False for x in can_false):
+            te |= fe2
     return te, fe
 
 
